@@ -4,8 +4,11 @@
 (*                                                                            *)
 (* A record is <<underlay, overlay, signature>>; it is checked against a      *)
 (* network id.  TLC never sees secp256k1 or keccak: keys, underlays and       *)
-(* network ids are small integers, an overlay is the term Ov(k, n), a         *)
-(* signature is the term Sig(k, m).  Unforgeability is the assumption that    *)
+(* network ids are small integers; the underlay and overlay FIELDS are byte   *)
+(* strings with a length (sequences of pieces of named base strings, see      *)
+(* below), the overlay of key k is the 32-byte field Ov(k, n), the signed     *)
+(* payload is the concatenation of the fields and a signature is the term     *)
+(* Sig(k, m) over such a payload.  Unforgeability is the assumption that      *)
 (* recovery from anything but Sig(k, m) over exactly m yields a key outside   *)
 (* the universe (Stranger) or fails (NoKey).                                  *)
 EXTENDS Integers, Sequences, FiniteSets, TLC
@@ -18,18 +21,73 @@ Stranger == 0           \* "some key nobody in the universe holds"
 NoKey    == 0 - 1       \* recovery failed
 
 (***************************************************************************)
+(* Byte strings.  A field of a record is a sequence of PIECES              *)
+(* <<base, from, to>>: the bytes of the named base string between two of   *)
+(* its cut points (from < to).  Join concatenates two fields and merges    *)
+(* adjacent pieces of one base, so fields are kept in a normal form and    *)
+(* two fields are equal iff they denote the same bytes, lengths included   *)
+(* (distinct bases are unrelated byte strings: collision assumption).      *)
+(* The signed payload is the CONCATENATION of the fields: nothing in it    *)
+(* marks where the underlay ends and the overlay begins.                   *)
+(***************************************************************************)
+Base(kind, a, b, h) == <<kind, a, b, h>>
+Piece(b, i, j)      == <<b, i, j>>
+Whole(b, last)      == <<Piece(b, 0, last)>>
+Join(s, t) ==
+  IF s = <<>> THEN t ELSE IF t = <<>> THEN s
+  ELSE LET a == s[Len(s)]  c == t[1]
+       IN IF a[1] = c[1] /\ a[3] = c[2]
+          THEN SubSeq(s, 1, Len(s) - 1) \o <<Piece(a[1], a[2], c[3])>> \o Tail(t)
+          ELSE s \o t
+\* the bytes of base b between cut points i and j (nothing when i >= j)
+Slice(b, i, j) == IF i < j THEN <<Piece(b, i, j)>> ELSE <<>>
+
+\* an overlay is 32 bytes; its cut points 0..3 are the byte offsets 0, 1, 31, 32
+OvBase(k, n) == Base("ov", k, n, "")
+OvEnd        == 3
+OvCutBytes   == <<0, 1, 31, 32>>
+\* an underlay is a multiaddr of three components (host, tcp port, p2p id); its cut points 0..4 are
+\* start, end of the 1st component, end of the 2nd, one byte before the end, end
+UnBase(u)    == Base("un", u, 0, "")
+UnEnd        == 4
+\* seeded bytes that belong to nobody: tag names the class ("pre1": one byte, "pre42": 42 bytes, "prez" / "app0": one zero byte)
+Junk(tag)    == Whole(Base("junk", 0, 0, tag), 1)
+JunkBytes(tag) == IF tag = "pre42" THEN 42 ELSE 1
+
+(***************************************************************************)
 (* Terms.                                                                  *)
 (***************************************************************************)
-Ov(k, n)            == <<"ov", k, n>>            \* overlay of key k on network n
-OvDamaged(k, n, h)  == <<"ovx", k, n, h>>        \* that overlay with a byte changed / wrong length: nobody's
-Un(u)               == <<"un", u>>
-UnDamaged(u, h)     == <<"unx", u, h>>
-Msg(u, o, n)        == <<u, o, n>>               \* "aurorafs-handshake-" ++ underlay ++ overlay ++ network id
+Ov(k, n)            == Whole(OvBase(k, n), OvEnd)                 \* overlay of key k on network n
+Un(u)               == Whole(UnBase(u), UnEnd)
+\* an overlay / underlay with one byte changed: same length, nobody's bytes
+OvFlipped(k, n, h)  == Whole(Base("ovx", k, n, h), 1)
+UnDamaged(u, h)     == Whole(Base("unx", u, 0, h), 1)
+\* overlays of another length that still contain (part of) the overlay of key k
+OvDamaged(k, n, h)  ==
+  CASE h = "short31" -> Slice(OvBase(k, n), 0, 2)                  \* last byte cut
+    [] h = "tail31"  -> Slice(OvBase(k, n), 1, OvEnd)              \* first byte cut
+    [] h = "long33"  -> Join(Ov(k, n), Junk("app0"))               \* a zero byte appended
+    [] h \in {"pre1", "prez", "pre42"} -> Join(Junk(h), Ov(k, n))  \* bytes prepended: the LAST 32 bytes are the overlay
+    [] h = "empty"   -> <<>>
+    [] OTHER         -> OvFlipped(k, n, h)
+\* the signed payload: "aurorafs-handshake-" ++ underlay ++ overlay ++ network id (8 bytes, supplied by the verifier)
+Msg(u, o, n)        == <<Join(u, o), n>>
 Sig(k, m)           == [kind |-> "sig", k |-> k, m |-> m, how |-> "none"]
 \* a genuine signature with one byte changed (how = "b<i>") or cut / extended / emptied
 SigDamaged(k, m, h) == [kind |-> "bad", k |-> k, m |-> m, how |-> h]
 \* the (r, n - s, v xor 1) twin of a genuine signature: other bytes, same signer (ECDSA malleability)
 SigTwin(k, m)       == [kind |-> "twin", k |-> k, m |-> m, how |-> "none"]
+
+\* byte length of a field; UCuts[u] = byte offsets of the cut points of underlay u (from the driver's concretisation)
+PieceBytes(p, UCuts) ==
+  LET b == p[1] IN
+  CASE b[1] = "ov"   -> OvCutBytes[p[3] + 1] - OvCutBytes[p[2] + 1]
+    [] b[1] = "un"   -> UCuts[b[2]][p[3] + 1] - UCuts[b[2]][p[2] + 1]
+    [] b[1] = "ovx"  -> 32
+    [] b[1] = "unx"  -> UCuts[b[2]][UnEnd + 1]
+    [] b[1] = "junk" -> JunkBytes(b[4])
+RECURSIVE FieldBytes(_, _)
+FieldBytes(f, UCuts) == IF f = <<>> THEN 0 ELSE PieceBytes(f[1], UCuts) + FieldBytes(Tail(f), UCuts)
 
 LenDamage == {"empty", "short64", "long66"}
 
@@ -40,7 +98,7 @@ Recover(s, m) ==
     [] s.kind = "bad"  -> IF s.how \in LenDamage THEN NoKey ELSE Stranger
     [] OTHER           -> NoKey
 
-OverlayOfKey(k, n) == IF k \in KeyIds THEN Ov(k, n) ELSE <<"ov-stranger", n>>
+OverlayOfKey(k, n) == IF k \in KeyIds THEN Ov(k, n) ELSE Whole(Base("ov-stranger", 0, n, ""), OvEnd)
 
 (***************************************************************************)
 (* The property's acceptance predicate (statement of C34) ...              *)
@@ -53,21 +111,41 @@ Accept(r, vn) == \E k \in KeyIds : /\ MadeBy(r.s, k, Msg(r.u, r.o, vn))
                                    /\ r.o = Ov(k, vn)
 
 (***************************************************************************)
-(* ... and the mechanism of aurora.ParseAddress.                           *)
+(* ... and the mechanism of aurora.ParseAddress: recover the signer of the *)
+(* concatenated payload, compare ITS overlay with the claimed field (bytes *)
+(* and length).  A malformed underlay is refused as well; that only adds   *)
+(* rejections and is not modelled.                                         *)
 (***************************************************************************)
 ParseOK(r, vn) == LET pk == Recover(r.s, Msg(r.u, r.o, vn))
                   IN pk # NoKey /\ OverlayOfKey(pk, vn) = r.o
+
+\* a comparison that looks only at the last 32 bytes of the claimed overlay (what a fixed-size conversion of the
+\* field does).  NOT the mechanism: kept to let the design check show that the field boundary is pinned by
+\* nothing but the length-exact comparison (MCAddrRecord!BoundaryPinnedByExactComparison).
+Last32(o) == IF o # <<>> /\ o[Len(o)][1][1] \in {"ov", "ov-stranger"} /\ o[Len(o)][2] = 0 /\ o[Len(o)][3] = OvEnd
+             THEN <<o[Len(o)]>> ELSE o
+ParseSuffixOK(r, vn) == LET pk == Recover(r.s, Msg(r.u, r.o, vn))
+                        IN pk # NoKey /\ OverlayOfKey(pk, vn) = Last32(r.o)
 
 (***************************************************************************)
 (* Records: a descriptor d names the honest record of (key, underlay, net) *)
 (* and one mutation of it.  Shared by generator, design check and judge.   *)
 (***************************************************************************)
 SigBytePositions == {"b0", "b31", "b32", "b63", "b64"}
-OvDamages == {"b0", "b15", "b31", "short31", "long33"}
+OvDamages == {"b0", "b15", "b31", "short31", "long33", "tail31", "pre1", "pre42"}
 UnDamages == {"b0", "blast"}
 
+\* two-field mutations that keep the signed bytes: the boundary between underlay and overlay is moved.
+\* "c<i>": the underlay is cut at its cut point i and the rest is put in front of the overlay (overlay longer than 32 bytes);
+\* "o<i>": the overlay is cut at its cut point i and its head is appended to the underlay (overlay shorter than 32 bytes)
+Shifts == {"c0", "c1", "c2", "c3", "o1", "o2"}
+ShiftAt(h) == CASE h \in {"c0"} -> 0 [] h \in {"c1", "o1"} -> 1 [] h \in {"c2", "o2"} -> 2 [] h = "c3" -> 3
+\* records the key made itself -- underlay, claimed overlay and network id genuinely signed -- for an overlay that is not
+\* the key's: another length containing its overlay, a byte changed, another key's overlay ("other")
+Claims == {"pre1", "pre42", "tail31", "short31", "long33", "b0", "other"}
+
 Mutations == {"none", "underlay_other", "underlay_byte", "overlay_other", "overlay_byte",
-              "sig_byte", "sig_len", "sig_otherkey", "sig_twin", "net"}
+              "sig_byte", "sig_len", "sig_otherkey", "sig_twin", "net", "shift", "claim"}
 
 \* Network ids are 64-bit numbers; TLC integers are 32-bit, so an id is carried as the term <<base, variant>>:
 \* base names one of the universe's ids, variant is "same" or how it differs from it ("hi32": only in the upper
@@ -90,15 +168,24 @@ RecOf(d) ==
     [] d.mut = "underlay_other" -> [b EXCEPT !.u = Un(d.mu)]
     [] d.mut = "underlay_byte"  -> [b EXCEPT !.u = UnDamaged(d.u, d.how)]
     [] d.mut = "overlay_other"  -> [b EXCEPT !.o = Ov(d.mk, SignNet(d))]
-    [] d.mut = "overlay_byte"   -> [b EXCEPT !.o = OvDamaged(d.k, SignNet(d), d.how)]
+    [] d.mut = "overlay_byte"   -> [b EXCEPT !.o = OvDamaged(d.k, SignNet(d), d.how)]        \* bytes or length
     [] d.mut = "sig_byte"       -> [b EXCEPT !.s = SigDamaged(d.k, b.s.m, d.how)]
     [] d.mut = "sig_len"        -> [b EXCEPT !.s = SigDamaged(d.k, b.s.m, d.how)]
     [] d.mut = "sig_otherkey"   -> [b EXCEPT !.s = Sig(d.mk, b.s.m)]
     [] d.mut = "sig_twin"       -> [b EXCEPT !.s = SigTwin(d.k, b.s.m)]
+    [] d.mut = "shift"          ->
+         IF d.how \in {"c0", "c1", "c2", "c3"}
+         THEN [b EXCEPT !.u = Slice(UnBase(d.u), 0, ShiftAt(d.how)),
+                        !.o = Join(Slice(UnBase(d.u), ShiftAt(d.how), UnEnd), b.o)]
+         ELSE [b EXCEPT !.u = Join(b.u, Slice(OvBase(d.k, SignNet(d)), 0, ShiftAt(d.how))),
+                        !.o = Slice(OvBase(d.k, SignNet(d)), ShiftAt(d.how), OvEnd)]
+    [] d.mut = "claim"          ->
+         LET o2 == IF d.how = "other" THEN Ov(d.mk, SignNet(d)) ELSE OvDamaged(d.k, SignNet(d), d.how)
+         IN [b EXCEPT !.o = o2, !.s = Sig(d.k, Msg(b.u, o2, SignNet(d)))]
 
 
 \* the descriptors over one honest record b = [k, u, n] (SigPos, OvDam, UnDam: the damage positions used)
-DescriptorsOf(b, SigPos, OvDam, UnDam, NetDam) ==
+DescriptorsOf(b, SigPos, OvDam, UnDam, NetDam, ShiftSet, ClaimSet) ==
   LET mk(mut, vn, mk_, mu_, how) ==
          [k |-> b.k, u |-> b.u, n |-> b.n, vn |-> vn, mut |-> mut, mk |-> mk_, mu |-> mu_, how |-> how]
   IN    {mk("none", b.n, 0, 0, "none")}
@@ -112,8 +199,11 @@ DescriptorsOf(b, SigPos, OvDam, UnDam, NetDam) ==
    \cup {mk("sig_len", b.n, 0, 0, h) : h \in LenDamage}
    \cup {mk("sig_otherkey", b.n, k2, 0, "none") : k2 \in KeyIds \ {b.k}}
    \cup {mk("sig_twin", b.n, 0, 0, "none")}
+   \cup {mk("shift", b.n, 0, 0, h) : h \in ShiftSet}
+   \cup {mk("claim", b.n, 0, 0, h) : h \in ClaimSet \ {"other"}}
+   \cup {mk("claim", b.n, k2, 0, "other") : k2 \in (IF "other" \in ClaimSet THEN KeyIds \ {b.k} ELSE {})}
 
 \* all descriptors of the universe
-Descriptors(SigPos, OvDam, UnDam, NetDam) ==
-  UNION {DescriptorsOf([k |-> k, u |-> u, n |-> n], SigPos, OvDam, UnDam, NetDam) : k \in KeyIds, u \in UnderlayIds, n \in NetIds}
+Descriptors(SigPos, OvDam, UnDam, NetDam, ShiftSet, ClaimSet) ==
+  UNION {DescriptorsOf([k |-> k, u |-> u, n |-> n], SigPos, OvDam, UnDam, NetDam, ShiftSet, ClaimSet) : k \in KeyIds, u \in UnderlayIds, n \in NetIds}
 =============================================================================
